@@ -57,7 +57,10 @@ EnvStep(a) ==
       [] a.op = "height"  -> SetHeight(a.h) /\ UNCHANGED wvars
       [] a.op = "lagheight" -> ReportHeight(a.h) /\ UNCHANGED wvars
       [] a.op = "tok"     -> SetTok(a.id, a.shape) /\ UNCHANGED wvars
-      [] a.op = "req"     -> R_Req(a.tx) /\ UNCHANGED cvars
+      \* a request naming another chain, or whose tx hash is not 32 bytes, is not the Alephium watcher's: it is dropped
+      \* without any node call
+      [] a.op = "req"     -> IF a.chain = 255 /\ a.len = 32 THEN R_Req(a.tx) /\ UNCHANGED cvars
+                             ELSE UNCHANGED <<cvars, wvars>>
       [] OTHER            -> UNCHANGED <<cvars, wvars>>        \* failnext: takes effect in a later answer
 
 \* ---------------------------------------------------------------- end of a scenario: the bounded-liveness obligation
